@@ -48,6 +48,10 @@ CHECKS = {
             'Bounded symbolic verification of the EI/atmosphere building blocks against independent transcriptions of the cited equations over their whole input range, with exp/log/log10/10^x/x^c as axiomatised uninterpreted functions: ISA temperature and pressure in both layers (refusal above 25 km, positivity, algebraic inverse altitude(pressure(h)) = h), Fuel Flow Method 2 sea-level fuel flow (eq. 40) and Mach number, thrust category (exactly one, midpoint thresholds, monotone in fuel flow for every positive calibration set including non-monotone and equal flows), SOx stoichiometry (sulfur atoms conserved), FOA3 (piecewise-linear delta, linear in HC) and fuel-flow volatile PM, SCOPE11 (invalid smoke numbers skipped, cap at 40, TF/MTF/other), and for BFFM2 NOx and HC/CO: non-negativity, speciation fractions summing to one and coupling to the thrust category.',
             'libm accuracy and anything needing the numeric value of a transcendental function are outside; MEEM and the full log-log fits of BFFM2/HC-CO (structure vs. reference, linear scaling) are not decided (stated in DESIGN.md); exact reals with 1e-9 relative tolerance',
             'proxy symbolic execution + z3 with Ackermannised uninterpreted functions and instantiated axioms', 'DESIGN.md#c12'),
+    'C14': ('translation_validation',
+            'Translation validation of the generated SQL: the real Filter.to_sql and helpers, QueryBase._common_conditions and Query/CountQuery/FrequentFlightQuery.to_sql run with solver variables as parameter values for every query/filter shape (condition groups enumerated exhaustively group by group and all together); the produced WHERE text is parsed by a small grammar and interpreted over one symbolic joined row (airport, country, continent and location as uninterpreted functions of the airport id); z3 decides for all rows and parameter values that it selects exactly what a predicate written from the documentation selects (ranges, type lists, airport/country/continent/bounding-box conditions on origin, destination or either end, start date inclusive from 00:00 UTC, end date inclusive to 24:00, every-n-th day, sampling applied exactly once), that placeholders and parameters align one-to-one in order, that ORDER BY/LIMIT/OFFSET/COUNT/GROUP BY structure is as documented, that an empty filter adds no condition, that the spatial compatibility rule holds for all 4096 presence patterns, and that building the SQL twice gives the same statement and an independent parameter list. Counterexample rows are replayed through real sqlite.',
+            'SQL semantics are those of the mini interpreter for the generated fragment (anything else is reported as unsupported, exit 2); sqlite executor, r-tree float32 rounding, ORDER BY stability and sampling statistics are outside; frequent-route counts are checked structurally (and od_pair symmetry in C13\'s harness)',
+            'symbolic parameters through the real generators + mini-SQL interpretation + z3 equivalence (translation validation)', 'DESIGN.md#c14'),
     'C15': ('other',
             'Bounded symbolic verification: the real GroundTrack (constructor, location, step, overstep) and Mission.gc_distance run on symbolic waypoints/airports and symbolic distances with pyproj replaced by a recording geodesic oracle; z3 decides for all inputs that total length is the sum of the per-segment oracle distances, that the returned position is the oracle forward result from the start waypoint of the segment containing the requested distance by exactly the offset (overstep: continuing the last segment from its own start), that step(a,b) and location(a+b) coincide, that refusals occur only for documented reasons, that azimuths are in [0,360), and that every oracle call uses (lon, lat) order. Counterexamples are replayed with real pyproj against an independent geodesic computation.',
             'pyproj is a trusted oracle (its WGS-84 numerics, antimeridian and polar behaviour are not analysed); 2..3 (thorough 4) waypoints; one operation per path',
